@@ -167,6 +167,9 @@ typecomposite(struct type *t1, struct type *t2)
 {
 	/* XXX: implement 6.2.7 */
 	/* XXX: merge with typecompatible? */
+	/* an array of known size and one of unknown size: the composite type has the size */
+	if (t1->kind == TYPEARRAY && t1->incomplete && !t2->incomplete)
+		return t2;
 	return t1;
 }
 
